@@ -7,7 +7,9 @@ TRUSTED_BASE = [
     "CPython text I/O, struct, numpy genfromtxt/astype(str) for the bounded round trips",
 ]
 ASSUMPTIONS = TRUSTED_BASE + [
-    "ONLY swap_integer / swap_endian are decided deductively. Everything that goes through decimal text ({:15.9f}, astype(str), float()) or regular expressions is a BOUNDED stand-in: the real writer/reader pairs are run "
+    "per shape (E2, npart 1..3, all real values): the real _reverse_velocities of CP2K / TurtleMD / LAMMPS / GROMACS with file readers and writers replaced by recording stubs writes, to the requested output file, exactly what it read from the "
+    "requested input except that every velocity component is negated (positions, box, atom names / ids kept). ASE's variant goes through ase.io and is covered by the bounded round trip only",
+    "ONLY swap_integer / swap_endian and the data flow above are decided deductively. Everything that goes through decimal text ({:15.9f}, astype(str), float()) or regular expressions is a BOUNDED stand-in: the real writer/reader pairs are run "
     "natively over a grid (atom counts 1..4 (>=2 for LAMMPS), magnitudes within the format width, id permutations, 3/9-component boxes, frame indices, both TRR byte orders and precisions, template key sets) and compared with "
     "the written values to the written precision",
     "CP2K inputs are compared as section trees (sibling order immaterial) through the repository's own read_cp2k_input",
@@ -20,7 +22,7 @@ BOUNDS = {"atoms": "1..4", "frames": "1..3", "templates": "handful of mdp / LAMM
 
 
 def jobs(tier):
-    names = ["swap_integer_bv", "g96_roundtrip", "xyz_roundtrip", "lammpstrj_roundtrip", "trr_decode", "reverse_velocities", "mdp_template", "lammps_template", "cp2k_template"]
+    names = ["swap_integer_bv", "reverse_velocities_dataflow", "g96_roundtrip", "xyz_roundtrip", "lammpstrj_roundtrip", "trr_decode", "reverse_velocities", "mdp_template", "lammps_template", "cp2k_template"]
     return [("py", {"name": n, "module": "props.C19", "fn": "run_clause", "clause": n}) for n in names]
 
 
@@ -93,9 +95,105 @@ def run_clause(spec, tier, seed):
         bad = None if (swap_endian("<"), swap_endian(">")) == (">", "<") else {"swap_endian": [swap_endian("<"), swap_endian(">")]}
         obs.append(_ob("swap_endian/involution_on_its_domain", bad, label="proved", backend="exhaustive-2-values"))
         return {"job": clause, "obligations": obs}
+    if clause == "reverse_velocities_dataflow":
+        return _reverse_velocities_dataflow(tier)
     fn = globals()["_" + clause]
     bad, n = fn(tier)
     return {"job": clause, "obligations": [_ob(f"{clause}/lossless_to_written_precision", bad)], "coverage_extra": {clause + "_cases": n}}
+
+
+def _reverse_velocities_dataflow(tier):
+    """E2 (contract on the REAL method objects, file readers / writers replaced by recording stubs): every engine's
+    _reverse_velocities reads the given file, writes to the given output file exactly what it read except that every velocity
+    component is negated -- positions, box, atom names / ids are the values read, for all real values (npart x 3 symbolic)."""
+    import time
+    import numpy as np
+    import z3
+    from symnp.sym import explore, prove, sym_array, tz
+    t0 = time.time()
+    obs = []
+
+    def scenario(engine, npart):
+        def run(ex):
+            rec = {}
+            xyz, vel = sym_array("x", (npart, 3)), sym_array("v", (npart, 3))
+            box = sym_array("box", (3,))
+            names = ["A%d" % i for i in range(npart)]
+            if engine in ("cp2k", "turtlemd"):
+                mod = __import__(f"infretis.classes.engines.{'turtlemdengine' if engine == 'turtlemd' else 'cp2k'}", fromlist=["x"])
+                cls = mod.TurtleMDEngine if engine == "turtlemd" else mod.CP2KEngine
+                e = object.__new__(cls)
+                e._read_configuration = lambda fn: (rec.setdefault("read", fn) and None) or (xyz.copy(), vel.copy(), box.copy(), list(names))
+                saved = mod.write_xyz_trajectory
+                mod.write_xyz_trajectory = lambda fn, pos, v, nm, bx, step=None, append=True: rec.update(out=fn, pos=pos, vel=v, names=nm, box=bx, append=append)
+                try:
+                    e._reverse_velocities("IN", "OUT")
+                finally:
+                    mod.write_xyz_trajectory = saved
+            elif engine == "lammps":
+                import infretis.classes.engines.lammps as mod
+                e = object.__new__(mod.LAMMPSEngine)
+                e.n_atoms = npart
+                idt = np.array([[i + 1, 1] for i in range(npart)])
+                s_r, s_w = mod.read_lammpstrj, mod.write_lammpstrj
+                mod.read_lammpstrj = lambda fn, frame, n: (rec.update(read=fn, frame=frame, n=n) or (idt.copy(), xyz.copy(), vel.copy(), box.copy()))
+                mod.write_lammpstrj = lambda fn, it, pos, v, bx, append=False: rec.update(out=fn, names=it, pos=pos, vel=v, box=bx)
+                try:
+                    e._reverse_velocities("IN", "OUT")
+                finally:
+                    mod.read_lammpstrj, mod.write_lammpstrj = s_r, s_w
+                names = idt
+            else:
+                import infretis.classes.engines.gromacs as mod
+                e = object.__new__(mod.GromacsEngine)
+                e.ext = "g96"
+                txt = {"TITLE": ["t"], "BOX": ["b"]}
+                s_r, s_w = mod.read_gromos96_file, mod.write_gromos96_file
+                mod.read_gromos96_file = lambda fn: (rec.update(read=fn) or (txt, xyz.copy(), vel.copy(), box.copy()))
+                mod.write_gromos96_file = lambda fn, raw, pos, v, box=None: rec.update(out=fn, names=raw, pos=pos, vel=v, box=box)
+                try:
+                    e._reverse_velocities("IN", "OUT")
+                finally:
+                    mod.read_gromos96_file, mod.write_gromos96_file = s_r, s_w
+                names = txt
+            goals = [("reads_the_given_file_and_writes_the_given_output", z3.BoolVal(rec.get("read") == "IN" and rec.get("out") == "OUT")),
+                     ("identities_kept", z3.BoolVal(rec.get("names") is names or np.array_equal(rec.get("names"), names)))]
+            if engine == "lammps":
+                goals.append(("first_frame_of_the_file_with_the_engines_atom_count", z3.BoolVal(rec.get("frame") == 0 and rec.get("n") == npart)))
+            if engine in ("cp2k", "turtlemd"):
+                goals.append(("output_file_is_overwritten_not_appended", z3.BoolVal(rec.get("append") is False)))
+            for i in range(npart):
+                for k in range(3):
+                    goals.append((f"velocities_negated", tz(rec["vel"][i, k]) == -tz(vel[i, k])))
+                    goals.append((f"positions_unchanged", tz(rec["pos"][i, k]) == tz(xyz[i, k])))
+            if engine == "gromacs":
+                # the box travels inside the raw text blocks handed to the writer (the BOX block), not as an array
+                goals.append(("box_block_kept", z3.BoolVal("BOX" in (rec.get("names") or {}) and rec.get("names")["BOX"] == ["b"])))
+            else:
+                for k in range(3):
+                    goals.append((f"box_unchanged", tz(rec["box"][k]) == tz(box[k])))
+            return goals
+        return run
+
+    for engine in ("cp2k", "turtlemd", "lammps", "gromacs"):
+        results, npaths = {}, 0
+        for npart in (1, 2, 3):
+            try:
+                runs = explore(scenario(engine, npart), max_paths=16)
+            except Exception as e:
+                results["no_exception"] = "unknown: " + repr(e)
+                continue
+            for ex, goals in runs:
+                npaths += 1
+                for gname, g in goals:
+                    r, _ = prove(ex.pc, g, timeout_ms=10000)
+                    if r != "unsat" or gname not in results:
+                        results[gname] = r if results.get(gname, "unsat") == "unsat" else results[gname]
+        for gname, r in results.items():
+            res = r if r in ("unsat", "sat") else "unknown"
+            obs.append({"name": f"reverse_velocities_{engine}/{gname}", "result": res, "label": "proved-per-shape", "backend": "z3-" + z3.get_version_string(), "time_s": round(time.time() - t0, 2),
+                        "engine": "E2", "solver_output": None if res == "unsat" else str(r), "witness": None if res == "unsat" else {"engine": engine, "goal": gname}})
+    return {"job": "reverse_velocities_dataflow", "obligations": obs, "coverage_extra": {"reverse_velocities_shapes": "npart 1..3 x 3 components, four engines"}}
 
 
 def replay(obname, w):
